@@ -404,9 +404,10 @@ Fixpoint strip_zeros (fuel : nat) (d p : Z) : Z * Z :=
            else (d, p)
   end.
 
-(* shortest m e = (d, p): d * 10^p is the shortest decimal (closest to the
-   value on ties of length) inside the rounding interval of m * 2^e *)
-Definition shortest (m : positive) (e : Z) : Z * Z :=
+(* shortest_raw m e = (d, p): d * 10^p is the shortest decimal (closest to the
+   value on ties of length) inside the rounding interval of m * 2^e.
+   [shortest] below is this search guarded by a read-back check. *)
+Definition shortest_raw (m : positive) (e : Z) : Z * Z :=
   let k := dec_exponent m e in
   let t := 17 - k in
   let a := e - 2 + t in
@@ -451,6 +452,21 @@ Definition render_exp (ds : bytes) (p : Z) : bytes :=
   end.
 
 Definition sign_bytes (neg : bool) : bytes := if neg then [45%N] else [].
+
+(* the exact decimal value of m * 2^e as (digits, exponent) *)
+Definition exact_digits (m : positive) (e : Z) : Z * Z :=
+  if 0 <=? e then (Zpos m * 2 ^ e, 0) else (Zpos m * pow5 (- e), e).
+
+(* shortest m e = (d, p): the shortest digits found by [shortest_raw], accepted
+   only if d * 10^p reads back (parse_float, exponent notation) as m * 2^e;
+   the exact decimal value is the total fallback (it has never been needed in
+   testing).  This makes the round trip of every text rendered from these
+   digits provable by construction (F64Proofs.format_f_roundtrip,
+   F64Json.format_json_roundtrip). *)
+Definition shortest (m : positive) (e : Z) : Z * Z :=
+  let '(d, p) := shortest_raw m e in
+  if pf_is (parse_float (render_exp (digits_of_Z d) p)) (S754_finite false m e)
+  then (d, p) else exact_digits m e.
 
 Definition fmt_candidate (neg : bool) (m : positive) (e : Z) : bytes :=
   let '(d, p) := shortest m e in
